@@ -112,7 +112,7 @@ def run_cases(chk, cases, prefix_cfgs):
             for lang0 in langs:
                 r = per[lang0]
                 lang = lang0 + ("+acronyms" if tag == "@acronyms" else "")
-                if r["status"] in ("panic", "abort"):
+                if r["status"] in ("panic", "abort", "hang"):
                     continue     # C07's business
                 if r["status"] == "unreadable":
                     chk.extra.setdefault("unreadable_outputs", {}).setdefault(lang, 0)
